@@ -306,7 +306,8 @@ func c17ReqSeq(in c17ReqSeqIn) c17ReqSeqOut {
 // ---------------------------------------------------------------- facts: the status rule of finish, by behaviour
 
 // c17FinishStatus: the code the real rawResponseWriter.finish passes to WriteHeader for a raw
-// response that prescribes status (recording ResponseWriter: nothing panics, nothing is sent).
+// response that prescribes status (recording ResponseWriter: nothing panics, nothing is sent);
+// 0 if it does not call WriteHeader at all.
 func c17FinishStatus(status uint32) (int, error) {
 	_, wire := referenceserver.VerifC17Arbitrate([]referenceserver.VerifC17Op{{K: "raw", Raw: &conformancev1.RawHTTPResponse{StatusCode: status}}})
 	for _, w := range wire {
@@ -314,7 +315,7 @@ func c17FinishStatus(status uint32) (int, error) {
 			return strconv.Atoi(w[2:])
 		}
 	}
-	return 0, fmt.Errorf("finish did not call WriteHeader for status %d (wire %v)", status, wire)
+	return 0, nil // WriteHeader was not called (0 is never passed on: the table then differs from the model's)
 }
 
 const c17FactsDomain = 1100
